@@ -78,6 +78,9 @@ func main() {
 			}
 		}
 	}
+	if w, ok := pm["big_w"]; ok && w >= 64 && w <= 640 {
+		bigW = w
+	}
 	overlay := map[string][]byte{}
 	stub, err := os.ReadFile(*vhStub)
 	if err != nil {
@@ -206,6 +209,7 @@ func main() {
 				mu.Unlock()
 				return
 			}
+			sol.IntAlt = pm["int_alt"] == 1
 			defer sol.Close()
 			x := &Exec{prog: prog, ts: ts, sol: sol, layoutCache: nil,
 				cfg: Config{MaxPaths: *maxPaths, MaxLoop: *maxLoop, MaxDepth: 400, MaxLen: *maxLen, MaxSteps: *maxSteps, TimeoutMs: *timeoutMs, FallbackMs: *fallbackMs, Params: pm, Verbose: *verbose}}
